@@ -6,6 +6,7 @@ import (
 	"fmt"
 	"go/token"
 	"go/types"
+	"math/rand"
 	"os"
 	"runtime"
 	"runtime/debug"
@@ -430,17 +431,20 @@ type Report struct {
 }
 
 type exploration struct {
-	e        *Engine
-	fn       *ssa.Function
-	mu       sync.Mutex
-	cond     *sync.Cond
-	work     [][]Decision
-	active   int
-	report   *Report
-	start    time.Time
-	stop     bool
-	funcs    map[string]bool
-	intrUsed map[string]bool
+	e              *Engine
+	fn             *ssa.Function
+	mu             sync.Mutex
+	cond           *sync.Cond
+	work           [][]Decision
+	active         int
+	report         *Report
+	start          time.Time
+	stop           bool
+	funcs          map[string]bool
+	intrUsed       map[string]bool
+	panicSeen      map[string]bool
+	okSeen, okKept int
+	rng            *rand.Rand
 }
 
 func (w *Worker) noteInconclusive(msg string) {
@@ -469,7 +473,8 @@ func (w *Worker) budgetCheck(ps *pathState) {
 
 // Explore runs harness function fn on all feasible paths.
 func (e *Engine) Explore(fn *ssa.Function) *Report {
-	x := &exploration{e: e, fn: fn, start: time.Now(), funcs: map[string]bool{}, intrUsed: map[string]bool{}}
+	x := &exploration{e: e, fn: fn, start: time.Now(), funcs: map[string]bool{}, intrUsed: map[string]bool{},
+		rng: rand.New(rand.NewSource(e.Cfg.Seed + 1))}
 	x.cond = sync.NewCond(&x.mu)
 	x.report = &Report{Harness: fn.String(), Outcomes: map[string]int{}, Unsupported: map[string]int{},
 		Panics: map[string]int{}, Covers: map[string]int{}, Asserts: map[string]int{}, Assumes: map[string]int{},
@@ -617,8 +622,34 @@ func (x *exploration) merge(w *Worker, sum PathSummary, ps *pathState) {
 			r.Violations = append(r.Violations, v)
 		}
 	}
-	if len(r.Samples) < x.e.Cfg.KeepPaths && (sum.Outcome == "ok" || sum.Outcome == "panic") {
-		r.Samples = append(r.Samples, sum)
+	if sum.Outcome == "panic" && sum.Model != nil {
+		// one replayable sample per distinct panic message, whatever the cap
+		if x.panicSeen == nil {
+			x.panicSeen = map[string]bool{}
+		}
+		if !x.panicSeen[sum.Detail] && len(x.panicSeen) < 16 {
+			x.panicSeen[sum.Detail] = true
+			r.Samples = append(r.Samples, sum)
+		}
+	} else if sum.Outcome == "ok" && sum.Model != nil {
+		// reservoir sample of completed paths for native validation
+		x.okSeen++
+		if x.okKept < x.e.Cfg.KeepPaths {
+			x.okKept++
+			r.Samples = append(r.Samples, sum)
+		} else if j := x.rng.Intn(x.okSeen); j < x.e.Cfg.KeepPaths {
+			// replace the j-th kept ok sample
+			k := 0
+			for idx := range r.Samples {
+				if r.Samples[idx].Outcome == "ok" {
+					if k == j {
+						r.Samples[idx] = sum
+						break
+					}
+					k++
+				}
+			}
+		}
 	}
 	if r.Paths >= x.e.Cfg.MaxPaths {
 		x.addInconclusive(fmt.Sprintf("path limit %d reached", x.e.Cfg.MaxPaths))
